@@ -7,7 +7,7 @@ PROPS = {
              "non-trivial = every event (each exercises padding + compression); model states = MC_SM3 toy-exhaustive",
         models=[dict(module="AnchorSM3", anchor=True, about="SM3.tla reproduces the OpenSSL-made digests of corpus/sm3_openssl_bytes.ndjson"),
                 dict(module="MC_SM3", about="PadImpl = Pad, padding invariants for every length 0..1100 and giant lengths; machine = Hash for all splits")],
-        stages=[dict(suite="sm3", trace="TraceSM3",
+        stages=[dict(suite="sm3", nda="compare", trace="TraceSM3",
                      required_classes={"both": ["sm3.hash/empty", "sm3.hash/r55", "sm3.hash/r56", "sm3.hash/r63", "sm3.hash/r0", "sm3.hash/multi", "sm3.block/hook-block", "sm3.final/giant-final"]})],
         assumptions=["SM3.tla transcribes GB/T 32905 (anchored by the standard's examples and OpenSSL digests as ASSUMEs)",
                      "TLC, CommunityModules Json/IOUtils/Bitwise"],
@@ -20,7 +20,7 @@ PROPS = {
                 dict(module="MC_Feistel", cfg="MC_Feistel_q", tier="quick", about="4-branch Feistel, every round function T, every key sequence, every block: Dec o Enc = id (2 rounds)"),
                 dict(module="MC_Feistel", tier="thorough", timeout=1200, about="same with 4 rounds: 16.8M states"),
                 dict(module="MC_Feistel", cfg="MC_Feistel_neg", expect="violation", about="negative: decryption with round keys in the same order must be refuted")],
-        stages=[dict(suite="sm4blk", trace="TraceSM4", plan=dict(module="PlanSM4", cfg_quick="PlanSM4_q", cfg_thorough="PlanSM4_t"),
+        stages=[dict(suite="sm4blk", nda="compare", trace="TraceSM4", plan=dict(module="PlanSM4", cfg_quick="PlanSM4_q", cfg_thorough="PlanSM4_t"),
                      required_classes={"both": ["sm4.enc/sm4.enc.badlen", "sm4.dec/sm4.dec.badlen", "sm4.enc/sm4.enc.fresh", "sm4.dec/sm4.dec.prev", "sm4.enc/sm4.enc.repeat", "sm4.dec/sm4.dec.fresh", "sm4.enc/sm4.enc.crafted", "sm4.dec/sm4.dec.crafted"]})],
         assumptions=["SM4.tla transcribes GB/T 32907 (S-box defined algebraically and ASSUMEd equal to the table; standard example as ASSUME)"],
     ),
@@ -32,7 +32,7 @@ PROPS = {
                 dict(module="MC_Modes", tier="quick", about="toy cipher: every mode/key/IV/data string of 0..5 symbols: round trip, lengths, total decryption, IV rule, counter law"),
                 dict(module="MC_Modes", cfg="MC_Modes_t", tier="thorough", timeout=1800, about="same for strings of 0..7 symbols, 8 keys"),
                 dict(module="MC_Modes", cfg="MC_Modes_neg", expect="violation", about="negative: counter increment without carry must be refuted")],
-        stages=[dict(suite="sm4mode", trace="TraceSM4",
+        stages=[dict(suite="sm4mode", nda="compare", trace="TraceSM4",
                      required_classes={"both": ["sm4.mode/ctr.enc.carry", "sm4.mode/ctr.enc.wrap", "sm4.mode/cbc.enc.len0", "sm4.mode/cbc.dec.len0", "sm4.mode/cbc.enc.blocks",
                                                 "sm4.mode/cfb.dec.blocks+tail", "sm4.mode/ofb.enc.blocks+tail", "sm4.mode/cbc.enc.badiv"]})],
         assumptions=["BlockModes.tla transcribes the standard modes (CBC+PKCS#7, CFB-128, OFB, CTR-BE128); anchored by OpenSSL-made vectors"],
@@ -44,7 +44,7 @@ PROPS = {
         trivial_classes=("new",),
         models=[dict(module="MC_Mersenne", about="end-around-carry addition and rotation modulo 2^5-1, every operand pair: equals arithmetic mod 2^w-1"),
                 dict(module="MC_ZUCSplit", about="request layer refines the word-at-a-time stream for every composition (toy totals), zero-length requests included")],
-        stages=[dict(suite="zuc", trace="TraceZUC", plan=dict(module="PlanZUC", cfg_quick="PlanZUC_q", cfg_thorough="PlanZUC_t"),
+        stages=[dict(suite="zuc", nda="compare", trace="TraceZUC", plan=dict(module="PlanZUC", cfg_quick="PlanZUC_q", cfg_thorough="PlanZUC_t"),
                      required_classes={"both": ["zuc.req/first", "zuc.req/continued", "zuc.req/zero-length", "zuc.new/new.add31-boundary"]})],
         assumptions=["ZUC.tla transcribes GM/T 0001 / ZUC v1.6 (three official vectors and the structural S-box definitions as ASSUMEs)"],
     ),
@@ -52,7 +52,7 @@ PROPS = {
         level="model_checking",
         rule="events = EEA::encrypt / EIA::gen_mac calls on fresh objects; distinct = distinct (key, count, bearer, direction, length, message); non-trivial = all",
         models=[dict(module="MC_EEA", about="mask / bit-extraction / shift helpers equal their bit-level meaning for every shift and basis word; IV layouts for all bearers/directions")],
-        stages=[dict(suite="eea", trace="TraceZUC",
+        stages=[dict(suite="eea", nda="compare", trace="TraceZUC",
                      required_classes={"both": ["eea.encrypt/eea.len%32=0", "eea.encrypt/eea.len%32=1", "eea.encrypt/eea.len%32=31", "eia.mac/eia.len0", "eia.mac/eia.len%32=0", "eia.mac/eia.len-other", "eea.encrypt/eea.len-other.add31-boundary", "eia.mac/eia.len-other.add31-boundary"]})],
         assumptions=["EEA3.tla transcribes 3GPP TS 35.221 (official test sets as ASSUMEs) over ZUC.tla"],
     ),
@@ -65,7 +65,7 @@ PROPS = {
         models=[dict(module="AnchorSM2", anchor=True, workers=1, about="SM2.tla reproduces the GM/T 0003.5 Annex signature, ciphertext and key agreement values (ASSUMEs)"),
                 dict(module="MC_SM2Sig", cfg="MC_SM2Sig_q_none", tier="quick", about="toy curve F_11 (n = 7): every d, k, digest: Sign in range and verifies, code-shaped signer = standard; every (r', s') of the byte range: VerifyImpl <=> Valid"),
                 dict(module="MC_SM2Sig", cfg="MC_SM2Sig_none", tier="thorough", timeout=1500, about="same on the F_23 curve (n = 29), byte range 0..31: 268 801 states")],
-        stages=[dict(suite="sm2sig", trace="TraceSM2", plan=dict(module="PlanSM2Sig", cfg_quick="PlanSM2Sig_q", cfg_thorough="PlanSM2Sig_t"),
+        stages=[dict(suite="sm2sig", nda="validate", trace="TraceSM2", plan=dict(module="PlanSM2Sig", cfg_quick="PlanSM2Sig_q", cfg_thorough="PlanSM2Sig_t"),
                      required_classes={"both": ["sm2.sign/fixed-nonce", "sm2.sign/free-nonce", "sm2.verify/untouched", "sm2.sign_digest/retry.r=0", "sm2.sign_digest/retry.r+k=n", "sm2.sign_digest/retry.s=0", "sm2.verify_digest/digest.sparse-t", "sm2.verify_digest/digest.edge-valid"]})],
         assumptions=["SM2.tla transcribes GB/T 32918.2 (anchored by the GM/T 0003.5 Annex A signature as ASSUME)", "BigNat Java override (cross-checked by MC_BigNat)"],
     ),
@@ -82,7 +82,7 @@ PROPS = {
                 dict(module="MC_SM2Sig", cfg="MC_SM2Sig_q_compare", expect="violation", about="negative: verification without the final comparison must be refuted"),
                 dict(module="MC_SM2Sig", cfg="MC_SM2Sig_q_zero", expect="violation", about="negative: verification without the r,s != 0 check must be refuted"),
                 dict(module="MC_SM2Sig", cfg="MC_SM2Sig_q_inf", expect="violation", about="negative: the pinned commit's handling of [s]G + [t]P = O (x1 read as 0) must be refuted")],
-        stages=[dict(suite="sm2ver", trace="TraceSM2", plan=dict(module="PlanSM2Sig", cfg_quick="PlanSM2Sig_q", cfg_thorough="PlanSM2Sig_t"),
+        stages=[dict(suite="sm2ver", nda="validate", trace="TraceSM2", plan=dict(module="PlanSM2Sig", cfg_quick="PlanSM2Sig_q", cfg_thorough="PlanSM2Sig_t"),
                      required_classes={"both": ["sm2.verify/untouched", "sm2.verify/tampered64", "sm2.verify/len<64", "sm2.verify/len>64",
                                                 "sm2.verify_digest/digest.small-s", "sm2.verify_digest/digest.s+n", "sm2.verify_digest/digest.r+n", "sm2.verify_digest/digest.t=0", "sm2.verify_digest/digest.sum-is-infinity", "sm2.verify_digest/digest.near-miss",
                                                 "sm2.verify_digest/digest.s=0", "sm2.verify_digest/digest.r=0", "sm2.verify_digest/digest.s=n", "sm2.verify_digest/digest.r=n", "sm2.verify_digest/digest.sparse-t"]})],
@@ -98,7 +98,7 @@ PROPS = {
                 dict(module="AnchorSM2", anchor=True, workers=1, about="SM2.tla reproduces the GM/T 0003.5 Annex values"),
                 dict(module="MC_SM2Enc", cfg="MC_SM2Enc_q_none", tier="quick", about="toy curve F_11, symbols 0..11: every key, nonce, message, order, encoding round-trips; code-shaped decryptor = declarative decryptor on EVERY symbol string of ciphertext length"),
                 dict(module="MC_SM2Enc", cfg="MC_SM2Enc_none", tier="thorough", timeout=900, about="same with symbols 0..15 (5.5 M states)")],
-        stages=[dict(suite="sm2enc", trace="TraceSM2", plan=dict(module="PlanSM2Enc", cfg_quick="PlanSM2Enc_q", cfg_thorough="PlanSM2Enc_t"),
+        stages=[dict(suite="sm2enc", nda="validate", trace="TraceSM2", plan=dict(module="PlanSM2Enc", cfg_quick="PlanSM2Enc_q", cfg_thorough="PlanSM2Enc_t"),
                      required_classes={"both": ["sm2.encrypt/c1c3c2.uncomp.klen%32=0", "sm2.encrypt/c1c2c3.comp.short", "sm2.decrypt/own-ciphertext", "sm2.decrypt/spec-made", "sm2.decrypt/weak-zero", "sm2.decrypt/all-zero-t", "sm2.kdf/klen%32=0", "codec.asn1_dec/asn1.dec.interop", "codec.asn1_dec/asn1.dec.interop-short-coord"]})],
         assumptions=["SM2.tla transcribes GB/T 32918.4 (anchored by the GM/T 0003.5 Annex ciphertext as ASSUME)"],
     ),
@@ -114,7 +114,7 @@ PROPS = {
                 dict(module="MC_SM2Enc", cfg="MC_SM2Enc_range", expect="violation", about="negative: coordinates >= p reduced instead of rejected must be refuted"),
                 dict(module="MC_SM2Enc", cfg="MC_SM2Enc_q_prefix", expect="violation", about="negative: any prefix byte read as uncompressed must be refuted"),
                 dict(module="MC_SM2Enc", cfg="MC_SM2Enc_q_hash", expect="violation", about="negative: decryption without the C3 comparison must be refuted")],
-        stages=[dict(suite="sm2dec", trace="TraceSM2", plan=dict(module="PlanSM2Enc", cfg_quick="PlanSM2Enc_q", cfg_thorough="PlanSM2Enc_t"),
+        stages=[dict(suite="sm2dec", nda="validate", trace="TraceSM2", plan=dict(module="PlanSM2Enc", cfg_quick="PlanSM2Enc_q", cfg_thorough="PlanSM2Enc_t"),
                      required_classes={"both": ["sm2.decrypt/untouched", "sm2.decrypt/flip-c1", "sm2.decrypt/flip-body", "sm2.decrypt/truncated",
                                                 "sm2.decrypt/offcurve", "sm2.decrypt/x+p", "sm2.decrypt/nonresidue", "sm2.decrypt/valid-small-x", "codec.asn1_dec/asn1.dec.offcurve", "codec.asn1_dec/asn1.dec.valid-small-x", "sm2.decrypt/fold-c3", "sm2.decrypt/c1-zero-forged", "codec.asn1_dec/asn1.dec.c1-zero-forged"]})],
         assumptions=["SM2.tla transcribes GB/T 32918.4 and the SEC1 point decoding rules"],
@@ -126,7 +126,7 @@ PROPS = {
         models=[dict(module="AnchorSM2", anchor=True, workers=1, about="SM2.tla reproduces the GM/T 0003.5 Annex key agreement values K, S_B, S_A"),
                 dict(module="MC_SM2Kex", about="toy group Z_7: all keys, ephemerals and tamper choices: honest => both accept and agree; acceptance => authentic; invalid ephemeral => receiver fails"),
                 dict(module="MC_SM2Kex", cfg="MC_SM2Kex_neg", expect="violation", about="negative: a validity test that accepts the point at infinity must be refuted")],
-        stages=[dict(suite="sm2kex", trace="TraceSM2", plan=dict(module="PlanKex"),
+        stages=[dict(suite="sm2kex", nda="validate", trace="TraceSM2", plan=dict(module="PlanKex"),
                      required_classes={"both": ["kx.step2/step2.none", "kx.step3/step3.none", "kx.step4/step4.none", "kx.step2/step2.offcurve", "kx.step2/step2.infinity",
                                                 "kx.step3/step3.bitflip", "kx.step4/step4.other", "kx.step2/step2.rerand", "kx.step3/step3.offcurve-forged", "kx.step2/step2.vzero"]})],
         assumptions=["SM2.tla transcribes GB/T 32918.3 with w = 127 and one-byte tags (GM/T 0003.5 Annex values as ASSUMEs)"],
@@ -137,7 +137,7 @@ PROPS = {
              "in two driver processes, plus injected out-of-range candidates; distinct = distinct accepted scalars; non-trivial = all operations",
         models=[dict(module="Rng", about="toy sampler machine: all candidate sequences <= 3 per operation: used scalars are in range, accepted during the operation, one per operation"),
                 dict(module="Rng", cfg="Rng_neg", expect="violation", about="negative: a sampler accepting candidates up to CMax-1 (like c < p-1) must be refuted")],
-        stages=[dict(suite="rng", trace="TraceRng", workers=1,
+        stages=[dict(suite="rng", nda="validate", trace="TraceRng", workers=1,
                      required_classes={"both": ["rng.op/sm2.sign", "rng.op/sm2.keygen", "rng.op/sm2.encrypt", "rng.op/sm2.kx1", "rng.op/sm2.kx2", "rng.op/sm2.sign.injected", "rng.op/sm9.sign", "rng.op/sm9.encrypt", "rng.op/sm9.keygen-sign", "rng.op/sm9.kx1a", "rng.op/sm9.kx1b", "rng.op/sm9.sign.injected", "rng.op/sm9.encrypt.retry", "rng.summary/summary"]})],
         assumptions=["bit-unbiasedness is a counting test (8 sigma per bit position); OS seeding is observed only through non-repetition across two processes",
                      "the RNG hook reports every candidate at the point where 32 generator bytes become a candidate"],
@@ -150,7 +150,7 @@ PROPS = {
                 dict(module="MC_DerInt", cfg="MC_DerInt_rightpad", expect="violation", workers=2, about="negative: padding appended on the right must be refuted"),
                 dict(module="MC_DerInt", cfg="MC_DerInt_onezero", expect="violation", workers=2, about="negative: restoring at most one dropped zero digit must be refuted"),
                 dict(module="AnchorSM2Codec", anchor=True, about="SM2Codec.tla reproduces the OpenSSL-made SPKI/PKCS#8 DER+PEM and decodes/re-encodes/decrypts the 18 OpenSSL GM/T 0009 ciphertexts")],
-        stages=[dict(suite="sm2codec", trace="TraceSM2",
+        stages=[dict(suite="sm2codec", nda="validate", trace="TraceSM2",
                      required_classes={"both": ["codec.encode/encode.plain", "codec.decode/decode.pk_bytes.roundtrip", "codec.decode/decode.spki_pem.openssl", "codec.decode/decode.pkcs8_pem.openssl",
                                                 "codec.decode/decode.pk_bytes.off-curve", "codec.asn1_enc/asn1.enc.x-lead0x1", "codec.asn1_enc/asn1.enc.y-lead0x1", "codec.asn1_enc/asn1.enc.x-lead0x2", "codec.asn1_enc/asn1.enc.y-lead0x2", "codec.asn1_dec/asn1.dec.openssl"]})],
         assumptions=["SM2Codec.tla: SEC1 / hex / SPKI / PKCS#8 templates / PEM / GM/T 0009 DER, anchored by OpenSSL-made documents (committed corpus, not a live OpenSSL)"],
@@ -171,7 +171,7 @@ PROPS = {
                 dict(module="MC_JacobianImpl", cfg="MC_JacobianImpl_mulq", tier="thorough", timeout=1500, about="4-bit window scalar_mul = [k]P for every representation x every 8-bit scalar (F_11 curve, n = 7: scalars up to 36n)"),
                 dict(module="MC_JacobianImpl", cfg="MC_JacobianImpl_mulneg", expect="violation", about="negative: window multiplication over the unfixed addition must be refuted"),
                 dict(module="MC_Mont", about="register-level Montgomery mul / add / sub with R = 2^7: every prime in (64,128) x every operand pair")],
-        stages=[dict(suite="sm2ec", trace="TraceSM2", plan=dict(module="PlanField", cfg_quick="PlanField", cfg_thorough="PlanField_t"),
+        stages=[dict(suite="sm2ec", nda="compare", trace="TraceSM2", plan=dict(module="PlanField", cfg_quick="PlanField", cfg_thorough="PlanField_t"),
                      required_classes={"both": ["fp.op/fp.mul.planned-window", "fn.op/fn.mul.planned-window", "ec.add/add.P=Q", "ec.add/add.P=Q.diffZ", "ec.add/add.P=-Q", "ec.add/add.O+Q", "ec.add/add.generic", "ec.smul/smul.k=n", "ec.smul/smul.k>n",
                                                 "ec.smul/smul.k=0", "ec.gmul/gmul.k<n", "ec.valid/valid.off", "ec.table/table.entry", "ec.table/table.row-base",
                                                 "fp.op/fp.mul.near-modulus", "fp.op/fp.add.near-2^256-m", "fn.op/fn.add.near-modulus"]})],
@@ -184,7 +184,7 @@ PROPS = {
         level="model_checking",
         rule="events = mod_n_from_hash on planned boundary / random 40-byte Ha, H1/H2 wrappers, key extraction for Annex / edge / random / crafted master keys; distinct = distinct inputs; non-trivial = all",
         models=[dict(module="AnchorSM9q", anchor=True, workers=1, tier="quick", about="SM9.tla reproduces the GM/T 0044.5 Annex extraction / signature / ciphertext values via the derived evaluator; G0 has order N"), dict(module="AnchorSM9", anchor=True, workers=1, tier="thorough", timeout=900, about="all GM/T 0044.5 Annex values incl. the definitional pairings, decryption and key exchange; G0Const = Pairing(P1,P2)")],
-        stages=[dict(suite="sm9hash", trace="TraceSM9", plan=dict(module="PlanSM9", cfg_quick="PlanSM9_q", cfg_thorough="PlanSM9_t"),
+        stages=[dict(suite="sm9hash", nda="compare", trace="TraceSM9", plan=dict(module="PlanSM9", cfg_quick="PlanSM9_q", cfg_thorough="PlanSM9_t"),
                      required_classes={"both": ["sm9.from_hash/from_hash.rem=0.planned", "sm9.from_hash/from_hash.rem=N-2.planned", "sm9.from_hash/from_hash.rem-generic.random", "sm9.hash1/hash1",
                                                 "sm9.extract/extract.sign", "sm9.extract/extract.enc", "sm9.extract/extract.exch", "sm9.extract/extract.sign.none"]})],
         assumptions=["SM9.tla transcribes GM/T 0044 H1/H2 and extraction (Annex values as ASSUMEs)"],
@@ -196,7 +196,7 @@ PROPS = {
         models=[dict(module="AnchorSM9q", anchor=True, workers=1, tier="quick", about="SM9.tla reproduces the GM/T 0044.5 Annex extraction / signature / ciphertext values via the derived evaluator; G0 has order N"), dict(module="AnchorSM9", anchor=True, workers=1, tier="thorough", timeout=900, about="all GM/T 0044.5 Annex values incl. the definitional pairings, decryption and key exchange; G0Const = Pairing(P1,P2)"),
                 dict(module="MC_SM9Sig", about="exponent model Z_7 with lazily sampled random oracle and single-field tampering: honest => accept; h out of range => error; accepted forgery => coincidence"),
                 dict(module="MC_SM9Sig", cfg="MC_SM9Sig_neg", expect="violation", about="negative: the forgery invariant without the coincidence classes must be refuted (invariant is tight)")],
-        stages=[dict(suite="sm9sig", trace="TraceSM9", plan=dict(module="PlanSM9", cfg_quick="PlanSM9_q", cfg_thorough="PlanSM9_t"), timeout=3400,
+        stages=[dict(suite="sm9sig", nda="validate", trace="TraceSM9", plan=dict(module="PlanSM9", cfg_quick="PlanSM9_q", cfg_thorough="PlanSM9_t"), timeout=3400,
                      required_classes={"both": ["sm9.sign/sign.fixed-r", "sm9.sign/sign.free-r", "sm9.verify/verify.untouched", "sm9.verify/verify.spec-made", "sm9.verify/verify.h-range",
                                                 "sm9.verify/verify.S-bitflip", "sm9.verify/verify.altered-master-key"]})],
         assumptions=["SM9.tla transcribes GM/T 0044.2 (Annex A signature as ASSUME); derived evaluator g = G0^ks for honest events"],
@@ -211,7 +211,7 @@ PROPS = {
                 dict(module="MC_SM9Proto", cfg="MC_SM9Proto_enc", about="exponent model Z_7: all ke, H1 tables, r, messages: round trip; every replaced C1 (any value or off-curve) / C2 / C3 is rejected"),
                 dict(module="MC_SM9Proto", cfg="MC_SM9Proto_enc_nomac", expect="violation", about="negative: decryption without the C3 comparison must be refuted"),
                 dict(module="MC_SM9Proto", cfg="MC_SM9Proto_enc_nocurve", expect="violation", about="negative: decryption without the on-curve check of C1 must be refuted")],
-        stages=[dict(suite="sm9enc", trace="TraceSM9", plan=dict(module="PlanSM9", cfg_quick="PlanSM9_q", cfg_thorough="PlanSM9_t"), timeout=3400,
+        stages=[dict(suite="sm9enc", nda="validate", trace="TraceSM9", plan=dict(module="PlanSM9", cfg_quick="PlanSM9_q", cfg_thorough="PlanSM9_t"), timeout=3400,
                      required_classes={"both": ["sm9.encrypt/encrypt.short", "sm9.encrypt/encrypt.len%32=0", "sm9.decrypt/decrypt.none", "sm9.decrypt/decrypt.spec-made", "sm9.decrypt/decrypt.flip-c2",
                                                 "sm9.decrypt/decrypt.flip-c1", "sm9.decrypt/decrypt.truncated", "sm9.decrypt/decrypt.c1-offcurve", "sm9.decrypt/decrypt.c1-zero-forged", "sm9.decrypt/decrypt.c1-offcurve-consistent", "sm9.decrypt/decrypt.fold-c3"]})],
         assumptions=["SM9.tla transcribes GM/T 0044.4 with MAC(K2,Z) = SM3(Z||K2) (Annex ciphertext as ASSUME)"],
@@ -225,7 +225,7 @@ PROPS = {
                 dict(module="AnchorSM9q", anchor=True, workers=1, tier="quick", about="SM9.tla reproduces the GM/T 0044.5 Annex extraction / signature / ciphertext values via the derived evaluator; G0 has order N"), dict(module="AnchorSM9", anchor=True, workers=1, tier="thorough", timeout=900, about="all GM/T 0044.5 Annex values incl. the definitional pairings, decryption and key exchange; G0Const = Pairing(P1,P2)"),
                 dict(module="MC_SM9Proto", cfg="MC_SM9Proto_kex", about="exponent model Z_7: all ke, H1 tables, rA, rB and every replacement of R_A / R_B: untampered => same key; replaced R => keys differ; off-curve R => receiver fails (702 000 states)"),
                 dict(module="MC_SM9Proto", cfg="MC_SM9Proto_kex_nocurve", expect="violation", about="negative: a receiver that skips the on-curve check must be refuted")],
-        stages=[dict(suite="sm9kex", trace="TraceSM9", timeout=3400,
+        stages=[dict(suite="sm9kex", nda="validate", trace="TraceSM9", timeout=3400,
                      required_classes={"both": ["sm9kx.1a/kx.1a", "sm9kx.1b/kx.1b.none", "sm9kx.2a/kx.2a.none", "sm9kx.1b/kx.1b.offcurve", "sm9kx.2a/kx.2a.offcurve", "sm9kx.1b/kx.1b.bitflip"]})],
         assumptions=["SM9.tla transcribes GM/T 0044.3 (Annex key exchange value as ASSUME)"],
     ),
@@ -233,7 +233,7 @@ PROPS = {
         level="model_checking",
         rule="events = pairings evaluated by the library: exact 384-byte comparison with the textbook pairing, bilinearity identities judged against G0^(ab), GT powers; distinct = distinct inputs; non-trivial = all",
         models=[dict(module="AnchorSM9q", anchor=True, workers=1, tier="quick", about="SM9.tla reproduces the GM/T 0044.5 Annex extraction / signature / ciphertext values via the derived evaluator; G0 has order N"), dict(module="AnchorSM9", anchor=True, workers=1, tier="thorough", timeout=900, about="all GM/T 0044.5 Annex values incl. the definitional pairings, decryption and key exchange; G0Const = Pairing(P1,P2)")],
-        stages=[dict(suite="sm9pair", trace="TraceSM9", timeout=3400,
+        stages=[dict(suite="sm9pair", nda="compare", trace="TraceSM9", timeout=3400,
                      required_classes={"both": ["sm9.pairing/pairing.exact.generators", "sm9.pairing/pairing.exact.near-order", "sm9.pairing/pairing.exact.random", "sm9.pairing/pairing.exact.annex-g", "sm9.pairing/pairing.exact.identity-g1", "sm9.pairing/pairing.exact.identity-g2",
                                                 "sm9.pair_ident/pairing.bilinear.random", "sm9.pair_ident/pairing.bilinear.near-order", "gt.pow/gt.pow.e=N-2", "gt.pow/gt.pow.sparse"]})],
         assumptions=["BN.tla: textbook R-ate pairing over Fp[w]/(w^12+2), final exponent by definition; anchored by the Annex value of e(P1, Ppub-s) through the signature example"],
@@ -249,7 +249,7 @@ PROPS = {
                 dict(module="MC_Tower", cfg="MC_Tower_neg", expect="violation", about="negative: the pinned commit's Fp2::fp_inv (c0 = 0 branch) must be refuted"),
                 dict(module="MC_Booth", about="sm9_u256_get_booth on toy limbs: every scalar reconstructs, digits in range, top digit non-negative"),
                 dict(module="MC_Mont", about="register-level Montgomery mul / add / sub with R = 2^7")],
-        stages=[dict(suite="sm9arith", trace="TraceSM9", timeout=3400,
+        stages=[dict(suite="sm9arith", nda="compare", trace="TraceSM9", timeout=3400,
                      required_classes={"both": ["gt.pow/gt.pow.fp12.sparse", "gt.pow/gt.pow.fp12.e=N-2", "tower.op/fp2.inv.z0x", "tower.op/fp2.mul.zxx", "tower.op/fp4.inv.z0x0x", "tower.op/fp12.mul.mfff", "modn.op/modn.mul.near-modulus",
                                                 "g1.op/g1.add.P=Q.jac-jac", "g1.op/g1.add.P=-Q.jac-jac", "g2.op/g2.add.P=Q.jac-jac", "g2.op/g2.equals.P=-Q.jac-jac", "g2.op/g2.add.generic.affine-jac",
                                                 "booth/booth.w5.recode", "booth/booth.w7.recode", "g1.table/table.entry", "g1.table/table.row-base"]})],
@@ -262,7 +262,7 @@ PROPS = {
              "distinct = distinct (entry point, input); non-trivial = all",
         models=[dict(module="MC_SignLive", about="toy group: signing terminates (liveness under a fair source) for every key in [1, n-2] and every digest; signatures in range"),
                 dict(module="MC_SignLive", cfg="MC_SignLive_neg", expect="violation", about="negative: a constructor admitting d = n-1 must yield the non-terminating lasso")],
-        stages=[dict(suite="api", trace="TraceApi",
+        stages=[dict(suite="api", nda="validate", trace="TraceApi",
                      required_classes={"both": ["sm2.verify/sm2.verify.content.len0", "sm2.decrypt.uncomp/sm2.decrypt.uncomp.content.len<98", "sm4.new/sm4.new.content.len<16", "sm4.cbc_dec/sm4.cbc_dec.content.len0",
                                                 "sm9.decrypt/sm9.decrypt.content.len<98", "sm9.from_hash/sm9.from_hash.content.len<40", "sm9.from_hash/sm9.from_hash.content.len<98", "sm2.pkcs8_der/sm2.pkcs8_der.corrupted.len>=98", "sm2.decrypt_asn1/sm2.decrypt_asn1.der-shape.len<98", "sm2.decrypt_asn1/sm2.decrypt_asn1.corrupted.len>=98",
                                                 "sm2.sign_with_key/sm2.sign_with_key.d=n-1.len<33", "sm9.verify/sm9.verify.arbitrary.len<33"]})],
